@@ -252,6 +252,7 @@ func checkC07(res *Result) {
 	checkClassifier(res, p, "isActivityPubPost", "POST", "Content-Type")
 	checkClassifier(res, p, "isActivityPubGet", "GET", "Accept")
 
+	checkCtorFlags(res, p)
 	res.Assumptions = append(res.Assumptions,
 		"a custom DelegateActor (NewCustomActor) is application code: its methods are treated as application effects of the like-named role",
 		"code outside package pub cannot reach application code except through values pub hands to it (checked by C07-R0)",
